@@ -230,6 +230,27 @@ theorem plan_upload_eq_download (st : St) (remote loc : Str) (n j : Nat) (v : St
       copyInternalOutput st remote loc n = [(st.path loc (.file n), st.path remote (.file n))] := by
   simp [copyInput, copyInternalOutput, hf]
 
+/-- **input files**: whatever the kind of input (URL or local file), a job downloads an input resource to that resource's *own*
+local path — the path its commands were given — and a local input is downloaded from exactly where it was uploaded for that job.
+Two resources read from the same local path are still two downloads to two places. -/
+theorem input_download_destination (st : St) (remote loc : Str) (n : Nat) (v ip : Str) (g : Option Nat)
+    (hf : st.file? n = some (.input v ip g)) :
+    ∃ src, copyInput st remote loc n = [(src, st.path loc (.file n))] ∧
+      (isLocalInput ip = true → src = uploadDest st remote n) ∧ (isLocalInput ip = false → src = ip) := by
+  by_cases hl : isLocalInput ip = true
+  · exact ⟨uploadDest st remote n, by simp [copyInput, hf, hl], ⟨fun _ => rfl, fun h => by rw [hl] at h; cases h⟩⟩
+  · have hl' : isLocalInput ip = false := by simpa using hl
+    exact ⟨ip, by simp [copyInput, hf, hl'], ⟨(fun h => by rw [hl'] at h; cases h), fun _ => rfl⟩⟩
+
+/-- every local input among a job's inputs is in the list handed to `copy_from_dict`, with the upload location the job downloads from -/
+theorem local_input_is_uploaded (st : St) (remote : Str) (c n : Nat) (v ip : Str) (g : Option Nat) (hc : c < st.nJobs)
+    (hin : n ∈ (st.job c).inputs) (hf : st.file? n = some (.input v ip g)) (hl : isLocalInput ip = true) :
+    (ip, uploadDest st remote n) ∈ localUploads st remote := by
+  simp only [localUploads, List.mem_flatten, List.mem_map, List.mem_range]
+  refine ⟨_, ⟨c, hc, rfl⟩, ?_⟩
+  rw [List.mem_filterMap]
+  exact ⟨n, hin, by simp [hf, hl]⟩
+
 /-- **upload_eq_download, partial** — at the moment job `c` mentions a resource `r` produced by another job `p`: every file `n`
 that travels with `r` (`r` itself and the files of its resource group) is, in the submitted plan, downloaded by `c` from exactly
 the location `p` uploads it to.  Missing for the full statement: persistence of the two set memberships over *later statements*
@@ -289,9 +310,9 @@ theorem handed_path_is_download_destination (st : St) (remote loc : Str) (c n : 
     (hin : n ∈ (st.job c).inputs) : ∃ x, (x, st.path loc (.file n)) ∈ (jobPlan st remote loc c).inputs := by
   cases f with
   | input v ip g =>
-    refine ⟨ip, ?_⟩
+    refine ⟨if isLocalInput ip then uploadDest st remote n else ip, ?_⟩
     simp only [jobPlan, List.mem_flatten, List.mem_map]
-    exact ⟨_, ⟨n, hin, rfl⟩, by simp [copyInput, hf]⟩
+    exact ⟨_, ⟨n, hin, rfl⟩, by simp only [copyInput, hf]; split <;> simp⟩
   | jobFile j v g e =>
     refine ⟨st.path remote (.file n), ?_⟩
     simp only [jobPlan, List.mem_flatten, List.mem_map]
@@ -337,6 +358,10 @@ example : (match run [.job none,
 example : convValue 0 .str = ['r', 'e', 's', 'u', 'l', 't', '1', '-', 's', 't', 'r', '.', 't', 'x', 't'] := by decide
 example : convValue 0 .repr = ['r', 'e', 's', 'u', 'l', 't', '1', '-', 'r', 'e', 'p', 'r', '.', 't', 'x', 't'] := by decide
 example : convValue 0 .json = ['r', 'e', 's', 'u', 'l', 't', '1', '-', 'j', 's', 'o', 'n', '.', 'j', 's', 'o', 'n'] := by decide
+-- local vs cloud inputs
+example : isLocalInput ['/', 'd', '/', 'r', '.', 'f', 'a'] = true := by decide
+example : isLocalInput ['f', 'i', 'l', 'e', ':', '/', '/', '/', 'd'] = true := by decide
+example : isLocalInput ['g', 's', ':', '/', '/', 'b', '/', 'o'] = false := by decide
 -- uids
 example : uid .rf 12 = ['_', '_', 'R', 'E', 'S', 'O', 'U', 'R', 'C', 'E', '_', 'F', 'I', 'L', 'E', '_', '_', '1', '2'] := by decide
 -- shlex.quote
